@@ -51,6 +51,7 @@ type Exec struct {
 	loopFrameHeaps map[*ssa.BasicBlock][]string
 	funcVals  map[string]*ssa.Function
 	ghostFields map[string]*GhostField
+	fnInfos   map[string]*fnInfo
 	definingGhost map[string]bool
 	axiomNames []string
 	lemmaErrs  []string
